@@ -1,4 +1,4 @@
-"""C04 translator plugin: FixpointTables, PathLookup.
+"""C04 translator plugin: FixpointTables, PathLookup, TemplateConst.
 
 * `parseLiteralTable` — `parse_literal` of typer/src/typer/expressions.rs: which `ir::Constant` variant an `ast::Literal`
   of each suffix kind becomes (and with which payload expression), or that it is rejected;
@@ -10,6 +10,13 @@
   `ScopedIdentifierBase`, the base the exporter prints, the stages of `find_identifier_in_scope` in order and what its
   symbol loop does with every `ScopeSymbol` variant.  `Thm.C04.path_lookup_as_modelled` compares them with the
   transcriptions next to `Model.FixpointNames.find`.
+* `TemplateConst` — the way of a template VALUE argument (seeded mutant C04-4): which `RestrictedConstant` kind
+  `parse_and_evaluate_constant_expression` makes of each `ir::Constant` kind (typer/src/typer/types.rs), what
+  `find_overload_casts` does with a `TypeOrConstant::Constant` before it names the instantiation
+  (typer/src/typer/expressions.rs), `RestrictedConstant::unrestrict` (ir/src/ir_types.rs), the symbol substituted for
+  the parameter inside the instance (typer/src/typer/scopes.rs), how the exporter prints the argument at the call site
+  (`generate_type_or_constant`) and the type name it prints for the parameter (hlsl/src/ast_generate.rs).
+  `Thm.C04.template_const_as_modelled` compares them with `Model.FixpointTemplate`.
 """
 import re
 
@@ -193,4 +200,103 @@ def register(gen, T):
         out.append("/-- what the symbol loop of `find_identifier_in_scope` does with each `ScopeSymbol` variant -/\n")
         out.append("def findInScopeArms : List (String × String) :=\n  " + T.lean_list('("%s", "%s")' % a for a in arms) + "\n")
         out.append(T.footer("PathLookup"))
+        return "".join(out)
+
+    @gen("TemplateConst")
+    def template_const():
+        from rustsrc import lean_str
+        typer_e = T.src("typer/src/typer/expressions.rs")
+        typer_t = T.src("typer/src/typer/types.rs")
+        scopes = T.src("typer/src/typer/scopes.rs")
+        irt = T.src("ir/src/ir_types.rs")
+        hlsl = T.src("hlsl/src/ast_generate.rs")
+        out = [T.header("TemplateConst", ["typer/src/typer/expressions.rs", "typer/src/typer/types.rs",
+                                          "typer/src/typer/scopes.rs", "ir/src/ir_types.rs", "hlsl/src/ast_generate.rs"])]
+        # ---- find_overload_casts: `arg.node = match arg.node { Type(ty) => .., Constant(c) => .. };`
+        body = fn_body(typer_e, "find_overload_casts")
+        m = re.search(r'arg\.node\s*=\s*match\s+arg\.node\s*\{', body)
+        if not m:
+            raise ExtractError("find_overload_casts: `arg.node = match arg.node {..}` not found")
+        _, arms_text, _ = first_match(body, r'^arg\.node$', m.start())
+        rec = []
+        for pats, guard, result in match_arms(arms_text):
+            if guard is not None or len(pats) != 1:
+                raise ExtractError("find_overload_casts: template argument arm with guard / alternatives")
+            pm = re.match(r'^ir::TypeOrConstant::(\w+)\((\w+)\)$', pats[0])
+            if not pm:
+                raise ExtractError(f"find_overload_casts: template argument pattern {pats[0]!r} unsupported")
+            res = normws(result)
+            res = re.sub(r'^\{\s*(.*?)\s*\}$', r'\1', res)
+            rec.append((pm.group(1), res))
+        out.append("/-- `find_overload_casts`: what is recorded for an explicit / inferred template argument, per variant -/\n")
+        out.append("def recordArms : List (String × String) :=\n  " + T.lean_list('("%s", %s)' % (a, lean_str(b)) for a, b in rec) + "\n\n")
+        # ---- parse_and_evaluate_constant_expression: Constant kind -> RestrictedConstant kind
+        body = fn_body(typer_t, "parse_and_evaluate_constant_expression")
+        _, arms_text, _ = first_match(body, r'^constant$')
+        rows = []
+        for pats, guard, result in match_arms(arms_text):
+            if guard is not None:
+                raise ExtractError("parse_and_evaluate_constant_expression: guard unsupported")
+            res = normws(result)
+            for p in pats:
+                if p.strip() == "_":
+                    if "ExpressionIsNotConstantExpression" not in res:
+                        raise ExtractError("parse_and_evaluate_constant_expression: default arm is not a rejection")
+                    continue
+                pm = re.match(r'^ir::Constant::(\w+)\((\w+)\)$', p)
+                rm = re.match(r'^ir::RestrictedConstant::(\w+)\((\w+)\)$', res)
+                if not pm or not rm or pm.group(2) != rm.group(2):
+                    raise ExtractError(f"parse_and_evaluate_constant_expression: arm {p!r} => {res!r} unsupported")
+                rows.append((pm.group(1), rm.group(1)))
+        out.append("/-- `parse_and_evaluate_constant_expression`: kind of the evaluated constant ↦ kind of the template argument\n"
+                   "    (payload unchanged); kinds not listed are rejected (`ExpressionIsNotConstantExpression`) -/\n")
+        out.append("def restrictTable : List (String × String) :=\n  " + T.lean_list('("%s", "%s")' % r for r in rows) + "\n\n")
+        # ---- RestrictedConstant::unrestrict
+        body = fn_body(irt, "unrestrict")
+        _, arms_text, _ = first_match(body, None)
+        rows = []
+        for pats, guard, result in match_arms(arms_text):
+            res = normws(result)
+            for p in pats:
+                pm = re.match(r'^RestrictedConstant::(\w+)\((\w+)\)$', p)
+                rm = re.match(r'^Constant::(\w+)\((\w+)\)$', res)
+                if pm and rm and pm.group(2) == rm.group(2) and guard is None:
+                    rows.append((pm.group(1), rm.group(1)))
+                elif not p.startswith("RestrictedConstant::Enum("):
+                    raise ExtractError(f"unrestrict: arm {p!r} => {res!r} unsupported")
+        out.append("/-- `RestrictedConstant::unrestrict` (payload unchanged; the `Enum` arm recurses) -/\n")
+        out.append("def unrestrictTable : List (String × String) :=\n  " + T.lean_list('("%s", "%s")' % r for r in rows) + "\n\n")
+        # ---- the symbol an instance gets for a template value parameter
+        m = re.search(r'ScopeSymbol::TemplateValue\(template_param_id\)\s*=>(.*?)ir::TypeOrConstant::Constant\(c\)\s*=>\s*\{\s*'
+                      r'new_symbols\.push\(\(\s*template_param_name\.clone\(\),\s*(.*?),?\s*\)\);', scopes, re.S)
+        if not m:
+            raise ExtractError("scopes.rs: substitution of a template value parameter not found")
+        out.append("/-- the symbol the scope of an instance gets for a template value parameter -/\n")
+        out.append("def substitutedSymbol : String := %s\n\n" % lean_str(normws(m.group(2))))
+        # ---- the exporter: argument at the call site, type name of the parameter
+        body = fn_body(hlsl, "generate_type_or_constant")
+        m = re.search(r'ir::TypeOrConstant::Constant\(c\)\s*=>\s*\{\s*let expr = (.*?);', body, re.S)
+        if not m:
+            raise ExtractError("generate_type_or_constant: Constant arm not found")
+        out.append("/-- `generate_type_or_constant`: the expression printed for a constant template argument -/\n")
+        out.append("def callSiteExpr : String := %s\n\n" % lean_str(normws(m.group(1))))
+        m = re.search(r'let value_type_name = match c \{', hlsl)
+        if not m:
+            raise ExtractError("ast_generate.rs: `let value_type_name = match c {` not found")
+        _, arms_text, _ = first_match(hlsl, r'^c$', m.start())
+        rows = []
+        for pats, guard, result in match_arms(arms_text):
+            res = normws(result)
+            for p in pats:
+                pm = re.match(r'^ir::RestrictedConstant::(\w+)\(_\)$', p)
+                rm = re.match(r'^"(\w+)"$', res)
+                if pm and rm:
+                    rows.append((pm.group(1), rm.group(1)))
+                elif p.strip() == "_" and res.startswith("todo!"):
+                    continue
+                else:
+                    raise ExtractError(f"value_type_name: arm {p!r} => {res[:40]!r} unsupported")
+        out.append("/-- type name printed for the value parameter of an instance, per kind of the argument (others: `todo!`) -/\n")
+        out.append("def valueTypeNames : List (String × String) :=\n  " + T.lean_list('("%s", "%s")' % r for r in rows) + "\n\n")
+        out.append(T.footer("TemplateConst"))
         return "".join(out)
